@@ -941,3 +941,100 @@ pub fn replay(models: &[LoopModel], v: &Value) -> Option<Result<(), String>> {
 }
 
 pub const ASSUMPTION: &str = "real-loop explorations run the unmodified run_sender_with_config (select! glue, timers, reader tasks, instant forwarder) on one thread under tokio's paused clock; the driver alone moves the clock and injects datagrams over loopback UDP, lets the loop run to quiescence after every stimulus (sentinel datagrams on a pinned CPU + a fixed number of cooperative yields), and never lets the housekeeping and the flush timer fall due in the same step while client data may be queued (tokio's select! picks among simultaneously ready branches at random). Observations: wire, client socket, SharedStats.";
+
+// ---------------------------------------------------------------------------------------------
+// Per-property use
+
+/// Clause prefixes each property judges on the real loop.
+pub fn keys_of(prop: &str) -> &'static [&'static str] {
+    match prop {
+        "C01" => &["real:client-datagram-not-forwarded", "real:unknown-or-modified-datagram-on-uplink", "real:per-link-order", "real:too-many-copies"],
+        "C08" => &[
+            "real:torn-down-before-the-configured-timeout",
+            "real:reconnect-attempts-too-close",
+            "real:silent-link-not-torn-down",
+            "real:retries-stopped",
+            "real:not-rejoined-within-30s",
+            "real:rejoin-not-clean",
+        ],
+        "C09" => &["real:receiver-datagram-not-relayed", "real:client-received-unexpected-datagram"],
+        "C14" => &["real:keepalive"],
+        _ => &[],
+    }
+}
+
+/// (model, plan) pairs a property explores on the real loop.
+pub fn plans_of(prop: &str, quick: bool) -> Vec<(LoopModel, RealPlan)> {
+    let mut v = Vec::new();
+    match prop {
+        "C01" | "C09" => {
+            v.push((LoopModel::new(2, 5000, false, 0), RealPlan::Full { depth: if quick { 3 } else { 4 } }));
+            v.push((LoopModel::new(2, 5000, true, 0), RealPlan::Dev { k: if quick { 1 } else { 2 }, depth: if quick { 16 } else { 20 }, default: 0 }));
+            if !quick {
+                v.push((LoopModel::new(3, 5000, false, 0), RealPlan::Dev { k: 2, depth: 12, default: 0 }));
+            }
+        }
+        "C08" => {
+            v.push((LoopModel::new(2, 5000, false, 1), RealPlan::Dev { k: 1, depth: 25, default: 0 }));
+            v.push((LoopModel::new(2, 5000, false, 1), RealPlan::Dev { k: 2, depth: if quick { 10 } else { 30 }, default: 1 }));
+            v.push((LoopModel::new(2, 15000, true, 3), RealPlan::Dev { k: 1, depth: 40, default: 0 }));
+            v.push((LoopModel::new(2, 5000, false, 3), RealPlan::Dev { k: 2, depth: if quick { 24 } else { 110 }, default: 0 }));
+            v.push((LoopModel::new(2, 5000, false, 2), RealPlan::Dev { k: 2, depth: if quick { 10 } else { 30 }, default: 1 }));
+            if !quick {
+                v.push((LoopModel::new(2, 1000, false, 1), RealPlan::Dev { k: 2, depth: 20, default: 0 }));
+                v.push((LoopModel::new(3, 5000, true, 1), RealPlan::Dev { k: 2, depth: 20, default: 0 }));
+                v.push((LoopModel::new(2, 60000, false, 3), RealPlan::Dev { k: 1, depth: 100, default: 0 }));
+            }
+        }
+        "C14" => {
+            v.push((LoopModel::new(2, 5000, false, 1), RealPlan::Dev { k: 1, depth: 25, default: 1 }));
+            v.push((LoopModel::new(2, 5000, false, 1), RealPlan::Dev { k: 2, depth: if quick { 10 } else { 24 }, default: 1 }));
+            if !quick {
+                v.push((LoopModel::new(3, 15000, true, 1), RealPlan::Dev { k: 1, depth: 40, default: 0 }));
+            }
+        }
+        _ => {}
+    }
+    v
+}
+
+/// Run the property's real-loop explorations into `rep`.
+pub fn run_for(rep: &mut Report, prop: &str, quick: bool) {
+    let keys = keys_of(prop);
+    let wall = Duration::from_secs(if quick { 40 } else { 1500 });
+    let mut total = Cov::default();
+    for (m, plan) in plans_of(prop, quick) {
+        let c = explore(rep, &m, &plan, keys, wall);
+        total.socket_recreations += c.socket_recreations;
+        total.rejoins += c.rejoins;
+        total.forwarded += c.forwarded;
+        total.relayed += c.relayed;
+        total.keepalives += c.keepalives;
+        total.flaps += c.flaps;
+    }
+    // vacuity guards: the explored runs went through the situations the clauses talk about
+    let need: &[(&str, u64)] = match prop {
+        "C01" => &[("client datagrams on the wire", total.forwarded)],
+        "C08" => &[("socket re-creations", total.socket_recreations), ("rejoins", total.rejoins), ("flaps gone dark", total.flaps)],
+        "C09" => &[("receiver datagrams relayed", total.relayed)],
+        "C14" => &[("keepalives", total.keepalives)],
+        _ => &[],
+    };
+    for (what, n) in need {
+        if *n == 0 {
+            rep.machinery_errors.push(format!("real loop: vacuous, no explored run went through '{what}'"));
+        }
+    }
+    rep.assume(ASSUMPTION);
+}
+
+/// `--replay` for artefacts of real-loop explorations (None: not one of ours).
+pub fn replay_for(prop: &str, v: &Value) -> Option<Result<(), String>> {
+    let mut models: Vec<LoopModel> = Vec::new();
+    for q in [true, false] {
+        for (m, _) in plans_of(prop, q) {
+            models.push(m);
+        }
+    }
+    replay(&models, v)
+}
